@@ -169,7 +169,9 @@ func (g *c18gen) nest() {
 		g.a.Reset()
 		g.b.Reset()
 		g.both("<i:")
+		saveBlocks := append([]string{}, g.blocks...)
 		g.list()
+		g.blocks = saveBlocks // blocks defined by the included template are not in the includer's table
 		g.both(">")
 		g.files[0][name], g.files[1][name] = g.a.String(), g.b.String()
 		g.a.Reset()
